@@ -25,6 +25,8 @@ func (q *Query) r(f string, a map[string]interface{}) (interface{}, error) {
 	return q.B.ReflResolve(q.ID, f, a)
 }
 func (q *Query) Title() (interface{}, error)  { return q.r("title", nil) }
+func (q *Query) Me() (interface{}, error)     { return q.r("me", nil) }
+func (q *Query) Mes() (interface{}, error)    { return q.r("mes", nil) }
 func (q *Query) A() (interface{}, error)      { return q.r("a", nil) }
 func (q *Query) Nul() (interface{}, error)    { return q.r("nul", nil) }
 func (q *Query) Items() (interface{}, error)  { return q.r("items", nil) }
